@@ -5,9 +5,12 @@ HERE = os.path.dirname(os.path.dirname(os.path.abspath(__file__)))
 sys.path.insert(0, os.path.join(HERE, 'lib'))
 from props import PROPS
 from na import NOT_APPLICABLE, NOT_YET
+from registered import REGISTERED
 
 checks = []
 for pid in sorted(PROPS):
+    if pid not in REGISTERED:
+        continue
     c = PROPS[pid]
     checks.append(dict(
         property_id=pid,
@@ -21,13 +24,13 @@ for pid in sorted(PROPS):
         technique=c['technique'],
     ))
 na = [dict(property_id=k, reason=v) for k, v in sorted(NOT_APPLICABLE.items())]
-na += [dict(property_id=k, reason=v) for k, v in sorted(NOT_YET.items()) if k not in PROPS]
+na += [dict(property_id=k, reason=v) for k, v in sorted(NOT_YET.items()) if k not in REGISTERED]
 m = dict(
     version=1,
     setup_cmd='./setup.sh',
     hooks=dict(guard='APACHE_XALAN_C_VERIF', enable='-DAPACHE_XALAN_C_VERIF=1 is passed to every verification build by build.sh (no source hook exists: every seam is an interface the library already takes from its caller, a libc symbol, or a compiler flag)',
                baseline_off_cmd='./baseline_off.sh', source_commits=[], add_only=True),
-    engines=[dict(name='xalan-dst', path='check', serves_properties=sorted(PROPS),
+    engines=[dict(name='xalan-dst', path='check', serves_properties=sorted(REGISTERED),
                   kind_free_text='deterministic simulation with fault injection: seeded plans executed by C++ drivers (sim/) against sanitizer builds of libxalan-c rebuilt from /repo; Python master (check) distributes runs, gates, minimises and replays violations, writes evidence')],
     checks=checks,
     not_applicable=na,
